@@ -44,7 +44,11 @@ Next == /\ k < Len(Cases) /\ k' = k + 1
                 /\ bad' = (~(\A i \in DOMAIN e.all : ReadOK(FromIdx(e.keys, e.all[i]), e.keys, e.all[i]))
                            /\ PrintT(<<"BAD", k + 1, "Reset", "initial versions read inconsistently">>))
            ELSE IF bad THEN UNCHANGED <<keys, vers, bad>>
-           ELSE IF e.o.op = "Drop" THEN vers' = Remove(vers, e.o.v + 1) /\ UNCHANGED <<keys, bad>>
+           ELSE IF e.o.op = "Drop"
+           THEN /\ vers' = Remove(vers, e.o.v + 1) /\ UNCHANGED keys
+                /\ bad' = (~(/\ Len(e.all) = Len(vers) - 1
+                             /\ \A i \in 1..(Len(vers) - 1) : ReadOK(Remove(vers, e.o.v + 1)[i], keys, e.all[i]))
+                           /\ PrintT(<<"BAD", k + 1, "Drop", "remaining versions read differently">>))
            ELSE /\ UNCHANGED keys
                 /\ vers' = ApplyV(vers, e.o)
                 /\ bad' = (~StepOK(vers, keys, e) /\ PrintT(<<"BAD", k + 1, e.o.op, ToJson(Res(vers[e.o.v + 1], e.o))>>))
